@@ -6,7 +6,7 @@ from concurrent.futures import ThreadPoolExecutor
 VERIF = os.path.dirname(os.path.dirname(os.path.abspath(__file__)))
 REPO = os.environ.get("VERIF_REPO", "/repo")
 COQ = os.path.join(VERIF, "coq")
-BUILD = os.path.join(VERIF, "build")
+BUILD = os.environ.get("VERIF_BUILD", os.path.join(VERIF, "build"))
 HARNESS = os.path.join(VERIF, "harness")
 GOENV = dict(os.environ, GOFLAGS="-mod=mod", GOPROXY="off", GOSUMDB="off", GOTOOLCHAIN="local",
              CGO_ENABLED="0")
@@ -26,9 +26,10 @@ def sh(cmd, cwd=None, env=None, timeout=None, input=None):
 
 
 class Lock:
-    def __init__(self, name):
-        os.makedirs(BUILD, exist_ok=True)
-        self.path = os.path.join(BUILD, name + ".lock")
+    def __init__(self, name, shared=False):
+        d = os.path.join(VERIF, "build") if shared else BUILD
+        os.makedirs(d, exist_ok=True)
+        self.path = os.path.join(d, name + ".lock")
     def __enter__(self):
         self.f = open(self.path, "w")
         fcntl.flock(self.f, fcntl.LOCK_EX)
@@ -46,9 +47,10 @@ def coq_sources():
     return sorted(out)
 
 
-def coq_build(timeout=3000):
-    """Full .vo build of the Coq tree (incremental through make). Returns (ok, log)."""
-    with Lock("coq"):
+def coq_build(timeout=3000, targets=None):
+    """Full .vo build (incremental through make) of the whole Coq tree, or of the given .vo targets and
+    everything they depend on. Returns (ok, log)."""
+    with Lock("coq", shared=True):
         srcs = coq_sources()
         proj = "-Q theories Thunder\n" + "\n".join(srcs) + "\n"
         pp = os.path.join(COQ, "_CoqProject")
@@ -58,7 +60,7 @@ def coq_build(timeout=3000):
             if rc != 0:
                 return False, out
         try:
-            rc, out = sh(["make", "-j16", "-k"], cwd=COQ, timeout=timeout)
+            rc, out = sh(["make", "-j16", "-k"] + (targets or []), cwd=COQ, timeout=timeout)
         except subprocess.TimeoutExpired:
             return False, "coq build timed out"
         return rc == 0, out
@@ -122,12 +124,13 @@ def go_build(prop, timeout=1200):
     name = prop.lower()
     os.makedirs(os.path.join(BUILD, "bin"), exist_ok=True)
     with Lock("go"):
-        modfile = os.path.join(BUILD, "harness.mod")
+        tag = hashlib.sha1(REPO.encode()).hexdigest()[:8]
+        modfile = os.path.join(BUILD, "harness-%s.mod" % tag)
         base = open(os.path.join(HARNESS, "go.mod.in")).read().replace("@REPO@", REPO)
         # requirements follow the repository's own go.mod so that the same dependency versions are used
         if not os.path.exists(modfile) or open(modfile).read() != base:
             open(modfile, "w").write(base)
-        shutil.copy(os.path.join(REPO, "go.sum"), os.path.join(BUILD, "harness.sum"))
+        shutil.copy(os.path.join(REPO, "go.sum"), os.path.join(BUILD, "harness-%s.sum" % tag))
         binp = os.path.join(BUILD, "bin", name)
         try:
             rc, out = sh(["go", "build", "-tags", "verif", "-modfile", modfile, "-o", binp, "./cmd/" + name],
